@@ -223,11 +223,14 @@ class Program:
         """qualified name of the callee expression (repo function/class or external dotted name)"""
         cache = self.__dict__.setdefault("_rc_cache", {})
         key = (f.qname, id(call))
-        if key in cache:
-            return cache[key]
+        hit = cache.get(key)
+        if hit is not None and hit[0] is call:
+            return hit[1]
         r = self._resolve_call(f, call, _depth)
         if _depth == 0:
-            cache[key] = r
+            # the node is kept with the entry: an id alone can be reused by a node created after this one was dropped (the syntactic
+            # normal forms and the inlining replace nodes), and the entry would answer for the wrong call
+            cache[key] = (call, r)
         return r
 
     def _resolve_call(self, f: Func, call: ast.Call, _depth=0):
